@@ -7,7 +7,7 @@ from vlib import universe
 from vlib.cond import Cond
 from vlib.prelude import SYMBOLIC, Chooser, NoTracing, attempt, reached
 from vlib.props.c05 import deep_same
-from vlib.shapes import Src, params_for
+from vlib.shapes import Bytes, Src, params_for
 
 META = {
     "functions": ["typelib.codecs.codec", "typelib.codecs.Codec.encode/decode", "typelib.api.encode/decode", "typelib.py.compat.json (backend selection)",
@@ -17,7 +17,8 @@ META = {
                  "symbolic str len <= 2, containers len <= 2) and the identity coder of bytes-like T on symbolic bytes len <= 3; "
                  "E3: default encoder (orjson) and stdlib json on values assembled from pick-lists by choice variables (ints 0, -1, 7, "
                  "2**53+1, -2**63, 2**63-1; strings '', 'a', quote+backslash, newline+NUL, non-ASCII; floats 0.5, -1e300, 1e-5) for every "
-                 "catalogue shape with at most 4 leaves and str-keyed mappings",
+                 "catalogue shape with at most 4 leaves and str-keyed mappings; for optional / union shapes with at most 2 leaves: two values "
+                 "through the same codec object, the second then through every entry point",
         "thorough": "shapes with at most 6 leaves; catalogue depth 3",
     },
     "assumptions": ["C encoders (orjson, json) are not symbolically executable: their inputs are realised pick-list values, enumerated exhaustively",
@@ -211,6 +212,49 @@ def make_json(shape, cfg, timeout):
     return Cond(f"json/{cfg}/{site}", [(f"c{i}", int) for i in range(n)], body, mode="E3", timeout=timeout)
 
 
+def make_json_seq(shape, timeout):
+    """Two values through the *same* codec object, then the second one through every entry point: the routines a
+    codec holds are long-lived, and state left by the first call must not change what the second returns."""
+    from vlib.props.c01 import _has_union
+
+    has_union = _has_union(shape)
+    site = shape.name
+    n = 2 * max(4, 3 * _nleaves(shape) + 2)
+
+    def body(**p):
+        import typelib
+        from typelib.py import compat
+
+        from vlib import caches
+
+        ch = Chooser([p[f"c{i}"] for i in range(n)])
+        with NoTracing():
+            v1 = shape.build(PickSrc(ch))
+            v2 = shape.build(PickSrc(ch))
+            caches.clear_all()
+            C = typelib.codec(shape.T)
+            ok1, e1 = attempt(C.encode, v1)
+            ok2, e2 = attempt(C.encode, v2)
+            if not (ok1 and ok2):
+                return None
+            attempt(C.decode, e1)
+            ok, d2 = attempt(C.decode, e2)
+            reached()
+            if not ok:
+                return ("second_decode_raised:" + type(d2).__name__, site, _d(v1, v2, d2))
+            if not shape.same(v2, d2) and not (has_union and attempt(C.encode, d2) == (True, e2)):
+                return ("second_decode_differs_from_value", site, _d(v1, v2, e2, d2))
+            ok, d3 = attempt(lambda: typelib.decode(shape.T, e2))
+            if not ok or not deep_same(d2, d3):
+                return ("entry_points_disagree_after_history", site, _d(v1, v2, d2, d3))
+            ok, d4 = attempt(lambda: typelib.unmarshal(shape.T, compat.json.loads(e2)))
+            if not ok or not deep_same(d2, d4):
+                return ("entry_points_disagree_after_history", site, _d(v1, v2, d2, d4))
+        return None
+
+    return Cond(f"seq/{site}", [(f"c{i}", int) for i in range(n)], body, mode="E3", timeout=timeout)
+
+
 def _std_dumps(m):
     return json.dumps(m).encode()
 
@@ -231,14 +275,16 @@ def conditions(tier, seed):
     maxleaves = 4 if tier == "quick" else 6
     out = [make_bytes(to)]
     for s in universe.select(tier, seed):
-        if s.name in ("bytes",):
+        if isinstance(s, Bytes):
             continue
         out.append(make_tag(_safe(s), to))
     for s in universe.catalogue(tier):
-        if _has_int_keys(s) or _nleaves(s) > maxleaves or s.name in ("bytes",):
+        if _has_int_keys(s) or _nleaves(s) > maxleaves or isinstance(s, Bytes):
             continue
         for cfg in ("default", "stdlib"):
             out.append(make_json(_safe(universe_shape(s.name, tier)), cfg, to))
+        if _nleaves(s) <= (2 if tier == "quick" else 3) and ("Optional" in s.name or "None" in s.name or "Union" in s.name):
+            out.append(make_json_seq(_safe(universe_shape(s.name, tier)), to))
     return out
 
 
